@@ -845,6 +845,10 @@ class SReal:
     def is_integer(s):
         if s.lin is not None and s.lin[1].denominator == 1:
             return True
+        if ctx().opts.get('isint_false'):
+            # kernel option: `int(x) if x.is_integer() else x` keeps x (same value; the int/float TYPE distinction is outside the
+            # model for that kernel) instead of forking two ways per coordinate read
+            return False
         return SBool(z3.IsInt(s.e))
 
     def __format__(s, spec):
